@@ -42,7 +42,8 @@ BASES = [
      "index": None},
 ]
 
-DIFFER_VARIANTS = ["value", "rename", "droprow", "swaprows", "swapcols", "addcol", "dropcol", "addrow"]
+DIFFER_VARIANTS = ["value", "rename", "droprow", "swaprows", "swapcols", "addcol", "dropcol", "addrow",
+                   "tiny", "case", "space", "swapcolvalues", "lastrow", "lastcol"]
 GREY_VARIANTS = ["dtype", "index", "negzero", "boolint", "object"]
 
 
@@ -66,6 +67,33 @@ def vary(spec, kind: str, r) -> Dict[str, Any]:
             c["values"][i] = v + 0.5
         else:
             c["values"][i] = v + 1
+    elif kind == "tiny" and n > 0:
+        fl = [c for c in cols if c["dtype"] == "float64" and any(v is not None for v in c["values"])]
+        if fl:
+            c = r.choice(fl)
+            i = r.choice([k for k, v in enumerate(c["values"]) if v is not None])
+            c["values"][i] = c["values"][i] + 2.0 ** -20
+    elif kind in ("case", "space") and n > 0:
+        st = [c for c in cols if c["dtype"] in (None, "object") and c["values"]]
+        if st:
+            c = r.choice(st)
+            i = r.randrange(n)
+            c["values"][i] = c["values"][i].upper() if kind == "case" else c["values"][i] + " "
+    elif kind == "swapcolvalues":
+        for dt in ("int64", "float64", None):
+            same = [c for c in cols if c["dtype"] == dt]
+            if len(same) >= 2 and same[0]["values"] != same[1]["values"]:
+                same[0]["values"], same[1]["values"] = same[1]["values"], same[0]["values"]
+                break
+    elif kind == "lastrow" and n > 0:
+        c = cols[-1]
+        v = c["values"][-1]
+        c["values"][-1] = (v + "z") if isinstance(v, str) else (7.25 if v is None else v + 1)
+    elif kind == "lastcol" and n > 0:
+        c = cols[-1]
+        i = r.randrange(n)
+        v = c["values"][i]
+        c["values"][i] = (v + "z") if isinstance(v, str) else (7.25 if v is None else v + 1)
     elif kind == "rename":
         c = r.choice(cols)
         c["name"] = c["name"] + "_"
@@ -257,6 +285,15 @@ def generate(run_seed: int, cfg: Dict[str, Any]) -> Dict[str, Any]:
     n_ops = rk.randint(cfg.get("min_ops", 5), cfg.get("max_ops", 40))
     n_bases = rk.choice([1, 2, 3])
     bases = rd.sample(BASES, n_bases)
+    if rk.random() < 0.12:
+        # a frame large enough that a hash over a sample / a prefix of the rows or columns would not see every cell
+        nbig = rk.choice([40, 130, 400])
+        ncol = rk.choice([3, 9])
+        big = {"cols": [{"name": "k", "dtype": None, "values": [f"s{i % 7}" for i in range(nbig)]}]
+               + [{"name": f"v{j}", "dtype": "int64" if j % 2 == 0 else "float64",
+                   "values": [((i * (j + 3)) % 11) if j % 2 == 0 else ((i * (j + 5)) % 13) / 4.0 for i in range(nbig)]}
+                  for j in range(ncol)], "index": None}
+        bases = bases[: max(1, n_bases - 1)] + [big]
     grey_rate = rk.choice([0.0, 0.15, 0.3])
     # a catalogue of frame specs: bases, exact duplicates, single-difference variants, grey variants
     catalogue: List[Dict[str, Any]] = []
@@ -284,6 +321,14 @@ def generate(run_seed: int, cfg: Dict[str, Any]) -> Dict[str, Any]:
         k = r.random()
         if k < 0.12:
             ops.append({"op": "refresh", "f": r.randrange(N_POOL), "spec": r.randrange(len(catalogue))})
+            continue
+        prev = [o for o in ops if o["op"] == "store" and len(o["key"]["dm"]) == 2]
+        if prev and r.random() < 0.08:
+            # the same two frames under swapped table names: a different data map
+            pk = prev[-1]["key"]
+            (n1, f1), (n2, f2) = pk["dm"]
+            ops.append({"op": "get", "key": {"model": pk["model"], "sql": pk["sql"], "dm": [[n1, f2], [n2, f1]]},
+                        "dst": r.randrange(N_POOL)})
             continue
         nm = r.sample(NAMES[:n_names], r.choice([1, 1, 2]) if n_names > 1 else 1)
         if r.random() < 0.3:
@@ -552,9 +597,9 @@ def sample_view(scn):
 LEVEL = "exploration"
 LOG_HASHSEED_INDEPENDENT = True
 TIERS = {
-    "quick": {"runs": 8000, "gen": {"min_ops": 5, "max_ops": 40}, "soft_deadline_s": 120, "hard_timeout_s": 400,
+    "quick": {"runs": 6400, "gen": {"min_ops": 5, "max_ops": 40}, "soft_deadline_s": 150, "hard_timeout_s": 500,
               "n_echo": 16},
-    "thorough": {"runs": 200000, "gen": {"min_ops": 5, "max_ops": 60}, "soft_deadline_s": 1500, "hard_timeout_s": 2400,
+    "thorough": {"runs": 120000, "gen": {"min_ops": 5, "max_ops": 60}, "soft_deadline_s": 1500, "hard_timeout_s": 2400,
                  "n_echo": 64},
 }
 RULE = ("one evaluation = one seeded history of 5-40 (thorough: 5-60) events over a real ResultCache and a pool of 8 "
